@@ -365,9 +365,9 @@ impl Property for C02 {
     fn descr(&self) -> Descr {
         Descr {
             level: "exploration",
-            rule: "seeded plans: clean H1 traffic plus one victim request with one injected cause (no route, denied, no backend, refused, black-holed connect, close on accept, backend close/stall at a byte offset of its response, garbage, slow answer past back_timeout, client stall, keep-alive close), plus an enumeration of close/stall at every response offset for two small responses; the victim is judged against the cause->allowed-outcome table, everything else against the C01 oracle; non-trivial = the victim reached a terminal observation; distinct = distinct trace hashes",
+            rule: "seeded plans: clean H1 traffic plus one victim request with one injected cause (no route, denied, no backend, refused, black-holed connect, close on accept, backend close/stall at a byte offset of its response, garbage, slow answer past back_timeout, client stall, keep-alive close), plus an enumeration of close/stall at every response offset for two small responses; a quarter of the seeded plans use an HTTP/2 client over TLS with 2-4 concurrent streams to H1 backends, one stream being the victim of a backend close/stall at a byte offset while the client reads slowly (half-written frames in flight): the victim must end in a proxy 502/503/504, an explicit RST_STREAM/GOAWAY/close after a byte-exact prefix, never END_STREAM on a short body, and every sibling stream must complete byte-exactly unless sozu explicitly refused it as retryable (GOAWAY last_stream_id, truthful REFUSED_STREAM), with a clean frame ledger at the client; the victim is judged against the cause->allowed-outcome table, everything else against the C01 oracle; non-trivial = the victim reached a terminal observation; distinct = distinct trace hashes",
             assumptions: vec!["AF_UNIX stands in for TCP", "release semantics", "status table taken from the property statement; where two causes coincide either status is accepted"],
-            real: vec!["sozu_lib::server::Server::run (mux, answers, timers, retry, backends)", "mio", "Linux epoll + AF_UNIX"],
+            real: vec!["sozu_lib::server::Server::run (mux h1/h2, answers, timers, retry, backends)", "rustls (server side inside sozu, client side in the peer)", "mio", "Linux epoll + AF_UNIX"],
             stub: vec!["IP network", "clock (virtual: back/connect/request timeouts fire in microseconds of wall time)", "entropy", "clients", "backends", "master"],
             not_covered: vec!["H2 backends and H1-over-TLS frontends; routing causes (404/401/503) on the H2 frontend; 421 and 429 outcomes (see C17 / C16)"],
         }
